@@ -107,6 +107,17 @@ type FileSpec struct {
 	// Ext lists external .proto files (well-known types, taken from protobuf-go's global registry) this
 	// file imports; their message types have NO generated fast-marshal methods.
 	Ext []string
+	// PkgOf names the corpus file whose proto package AND Go package this file joins (a package spread over several
+	// .proto files, as most real packages are); empty = a package of its own, named like the file.
+	PkgOf string
+}
+
+// Pkg is the name of the (proto and Go) package the file belongs to.
+func (s FileSpec) Pkg() string {
+	if s.PkgOf != "" {
+		return s.PkgOf
+	}
+	return s.Name
 }
 
 // ExtFile returns the descriptor of an external dependency.
@@ -513,6 +524,58 @@ func Files() []FileSpec {
 			m.field("oc", 7, Opt, kindByName("enum"), fopt{typeName: "@p2.Color", oneof: oi})
 			m.field("om", 8, Opt, kindByName("message"), fopt{typeName: "@p2.ReqChild", oneof: oi})
 		}})
+	// one Go package spread over two .proto files: the second file's fields, map values, oneof members (and, in proto2,
+	// required fields and an extension) have types that are declared in the FIRST file of the same package
+	out = append(out, FileSpec{Name: "p3pkg", Syntax: "proto3", Cells: "proto3: first file of a two-file package (types used by the sibling file)",
+		build: func(b *fb) {
+			b.enum("Kind", map[string]int32{"KIND_ZERO": 0, "KIND_ONE": 1, "KIND_NEG": -2}, []string{"KIND_ZERO", "KIND_ONE", "KIND_NEG"})
+			m := b.msg("Base")
+			m.field("id", 1, Opt, kindByName("int32"), fopt{})
+			m.field("name", 2, Opt, kindByName("string"), fopt{})
+			m.field("k", 3, Opt, kindByName("enum"), fopt{typeName: "Kind"})
+			m.field("next", 4, Opt, kindByName("message"), fopt{typeName: "Base"})
+		}})
+	out = append(out, FileSpec{Name: "p3pkgb", Syntax: "proto3", PkgOf: "p3pkg", Deps: []string{"p3pkg"}, Cells: "proto3: second file of the package: message and enum types of the SIBLING file in singular, repeated, map-value and oneof positions",
+		build: func(b *fb) {
+			m := b.msg("User")
+			m.field("k", 1, Opt, kindByName("enum"), fopt{typeName: "Kind"})
+			m.field("b", 2, Opt, kindByName("message"), fopt{typeName: "Base"})
+			m.field("rk", 3, Rep, kindByName("enum"), fopt{typeName: "Kind"})
+			m.field("rb", 4, Rep, kindByName("message"), fopt{typeName: "Base"})
+			m.mapField("mk", 5, kindByName("string"), kindByName("enum"), "Kind")
+			m.mapField("mb", 6, kindByName("int32"), kindByName("message"), "Base")
+			oi := m.oneofDecl("pick")
+			m.field("ok", 7, Opt, kindByName("enum"), fopt{typeName: "Kind", oneof: oi})
+			m.field("ob", 8, Opt, kindByName("message"), fopt{typeName: "Base", oneof: oi})
+			m.field("os", 9, Opt, kindByName("string"), fopt{oneof: oi})
+			m.field("local", 10, Opt, kindByName("message"), fopt{typeName: "Loc"})
+			l := b.msg("Loc")
+			l.field("b", 1, Opt, kindByName("message"), fopt{typeName: "Base"})
+		}})
+	out = append(out, FileSpec{Name: "p2pkg", Syntax: "proto2", Cells: "proto2: first file of a two-file package (an extendable message, a message with a required field, an enum)",
+		build: func(b *fb) {
+			b.enum("Kind", map[string]int32{"KIND_ZERO": 0, "KIND_ONE": 1, "KIND_NEG": -2}, []string{"KIND_ZERO", "KIND_ONE", "KIND_NEG"})
+			m := b.msg("Base")
+			m.field("id", 1, Req, kindByName("int32"), fopt{})
+			m.field("name", 2, Opt, kindByName("string"), fopt{})
+			x := b.msg("Extendable")
+			x.field("a", 1, Opt, kindByName("int32"), fopt{})
+			x.m.ExtensionRange = append(x.m.ExtensionRange, &descriptorpb.DescriptorProto_ExtensionRange{Start: proto.Int32(100), End: proto.Int32(200)})
+		}})
+	out = append(out, FileSpec{Name: "p2pkgb", Syntax: "proto2", PkgOf: "p2pkg", Deps: []string{"p2pkg"}, Cells: "proto2: second file of the package: required / optional / repeated / oneof fields and message-scoped extensions whose types (and extendee) live in the SIBLING file",
+		build: func(b *fb) {
+			m := b.msg("User")
+			m.field("b", 1, Req, kindByName("message"), fopt{typeName: "Base"})
+			m.field("k", 2, Opt, kindByName("enum"), fopt{typeName: "Kind"})
+			m.field("rb", 3, Rep, kindByName("message"), fopt{typeName: "Base"})
+			m.field("pk", 4, Rep, kindByName("enum"), fopt{typeName: "Kind", packed: tr(true)})
+			oi := m.oneofDecl("pick")
+			m.field("ob", 5, Opt, kindByName("message"), fopt{typeName: "Base", oneof: oi})
+			m.field("ok", 6, Opt, kindByName("enum"), fopt{typeName: "Kind", oneof: oi})
+			sc := b.msg("Scope")
+			sc.m.Extension = append(sc.m.Extension, mkField(b, "x_base", 100, Opt, kindByName("message"), fopt{typeName: "Base", extendee: "Extendable"}))
+			sc.m.Extension = append(sc.m.Extension, mkField(b, "x_kind", 101, Opt, kindByName("enum"), fopt{typeName: "Kind", extendee: "Extendable"}))
+		}})
 	wkt := func(n string) string { return ".google.protobuf." + n }
 	wktFiles := []string{"google/protobuf/timestamp.proto", "google/protobuf/duration.proto", "google/protobuf/wrappers.proto", "google/protobuf/any.proto",
 		"google/protobuf/field_mask.proto", "google/protobuf/empty.proto", "google/protobuf/struct.proto"}
@@ -653,17 +716,17 @@ func Files() []FileSpec {
 
 // ProtoPath is the (virtual) .proto path of a corpus file for a runtime.
 func ProtoPath(spec FileSpec, rt Runtime) string {
-	return fmt.Sprintf("%s/%s/%s.proto", rt, spec.Name, spec.Name)
+	return fmt.Sprintf("%s/%s/%s.proto", rt, spec.Pkg(), spec.Name)
 }
 
 // GoImportPath is the Go import path of the generated package.
 func GoImportPath(spec FileSpec, rt Runtime) string {
-	return fmt.Sprintf("verif/mc/gen/%s/%s", rt, spec.Name)
+	return fmt.Sprintf("verif/mc/gen/%s/%s", rt, spec.Pkg())
 }
 
 // ProtoPackage is the proto package name.
 func ProtoPackage(spec FileSpec, rt Runtime) string {
-	return fmt.Sprintf("verif.%s.%s", rt, spec.Name)
+	return fmt.Sprintf("verif.%s.%s", rt, spec.Pkg())
 }
 
 // Build returns the FileDescriptorProto of spec for runtime rt.
@@ -672,7 +735,7 @@ func Build(spec FileSpec, rt Runtime) *descriptorpb.FileDescriptorProto {
 	fd := &descriptorpb.FileDescriptorProto{
 		Name:    proto.String(ProtoPath(spec, rt)),
 		Package: proto.String(pkg),
-		Options: &descriptorpb.FileOptions{GoPackage: proto.String(GoImportPath(spec, rt) + ";" + spec.Name)},
+		Options: &descriptorpb.FileOptions{GoPackage: proto.String(GoImportPath(spec, rt) + ";" + spec.Pkg())},
 	}
 	if spec.Syntax == "proto3" {
 		fd.Syntax = proto.String("proto3")
